@@ -23,7 +23,7 @@ TRUSTED_EXTRA = ["numpy.allclose semantics |a-b| <= atol + rtol*|b| with rtol=1e
 def case(g, tier, ci):
     r = g.r
     sg = SeqGen(g)
-    SR = r.choice([1, 2, 10, 100, 1e3, 2.5, 1e6, 1e9, 12345.678])
+    SR = r.choice([1, 2, 10, 100, 1e3, 2.5, 1e6, 1e9, 12345.678, 1.2e9, 2.4e9])      # the last two: a period that is no whole number of ns
     N = r.randint(4, 40 if tier == "quick" else 300)
     chans = r.sample([1, 2, 3, 4, "A", "B", "ch1", 7], r.randint(1, 6))
     ops = sg.element("e", SR, N, chans, raw_p=0.4, kinds=("ramp", "sine", "user"), flags_p=0.1, waits=0.2, nseg=(1, 4))
